@@ -358,6 +358,15 @@ func (i *impl) exec(op string) string {
 			time.Sleep(50 * time.Microsecond)
 		}
 		return "ok"
+	case "mburst": // n messages arrive on member m faster than anybody reads
+		m, ok := i.members[n(1)]
+		if !ok {
+			return "ok"
+		}
+		for k := 0; k < n(2); k++ {
+			m.in <- []byte{byte(n(1)), byte(k), byte(k >> 8)}
+		}
+		return "ok"
 	case "readall":
 		var got []string
 		for k := 0; k < n(1); k++ {
@@ -596,6 +605,16 @@ func main() {
 		do("close")
 		h.Distinct(fmt.Sprintf("order/%v", want))
 	}
+	// volume: more messages taken from the members than the merge queue holds before anybody reads; every one is returned once
+	h.Case("volume")
+	do("new 1 1,2")
+	do("mburst 1 700")
+	do("mburst 2 700")
+	if out := do("readall 1400"); strings.Count(out, ",") != 1399 || strings.Contains(out, "<") {
+		h.Violate("1400 messages arrived on two members before the first Read; Read did not return every one of them once: " + out[:min(len(out), 200)])
+	}
+	do("close")
+	h.Distinct("volume")
 	// pollers
 	for c := 0; c < 20; c++ {
 		h.Case(fmt.Sprintf("rr %d", c))
